@@ -221,6 +221,9 @@ def invalid_operands(mn):
         out += [""]                                        # operand required
     if "stkS" in kinds or "stkU" in kinds:
         own = "S" if "stkS" in kinds else "U"
+        other = "U" if own == "S" else "S"
+        out += [own + "," + other, other + "," + own, "X," + other + ",Y," + own, "CC," + own + "," + other, "D," + other + "," + own + ",PC",
+                own + "," + own, "A,B,X,Y," + own + ",PC"]      # the own stack pointer among others, with the other one present
         out += [own, "A," + own, own + ",B", "Q", "A,Q", "Z,B", "A,,B", ",A", "A,", "W", "AB", "A B", "X,Y,Z", "PCR", "E", "F", "V", "MD", "a,b"]
     if "pair" in kinds:
         out += ["A,X", "X,A", "D,B", "CC,Y", "DP,PC", "A", "A,B,CC", "X,Q", "Z,A", "Q,Q", ",", "A,", ",B", "X,,Y", "W,V", "E,F", "PCR,X", "0,1"]
